@@ -195,6 +195,11 @@ class Ctx:
             rep[os.path.join(REPO, pkg, os.path.basename(f))] = os.path.join(VERIF, "harness", f)
         for k, v in (replace or {}).items():
             rep[os.path.join(REPO, k)] = v
+        # VERIF_REPLACE="rel/path.go=/abs/mutated.go,..." : run the check against a mutated copy of
+        # some /repo files without touching /repo (used by tools/withpatch.py to try seeded changes)
+        for kv in filter(None, os.environ.get("VERIF_REPLACE", "").split(",")):
+            k, v = kv.split("=", 1)
+            rep[os.path.join(REPO, k)] = v
         ov = os.path.join(self.ovdir, tag + "_ov.json")
         json.dump({"Replace": rep}, open(ov, "w"))
         return ov
